@@ -9,7 +9,7 @@ from paramiko.server import InteractiveQuery
 from vf import keys
 from vf.authkit import (AUTH_FAILED, AUTH_PARTIALLY_SUCCESSFUL, AUTH_SUCCESSFUL, MSG_USERAUTH_INFO_RESPONSE,
                         MSG_USERAUTH_GSSAPI_MIC, MSG_USERAUTH_REQUEST, MSG_USERAUTH_SUCCESS, FenceTimeout, Rd, Sess,
-                        Short, episodes, parse_userauth_request, res_name, session_blob, sstr, u32, verify_sig)
+                        Short, episodes, parse_userauth_request, res_name, session_blob, sstr, started, u32, verify_sig)
 
 META = dict(
     title="auth granted only with application approval and valid proof",
@@ -465,13 +465,14 @@ def run_session(ctx, rng, desc):
         if pol["kex_ctx"] != "none":
             s.victim.kexgss_ctxt = StubKexCtx(ok=pol["kex_ctx"] == "ok")
 
-    sess = Sess(rng, policy=build_policy(pol), users={user: "pw"}, setup=setup)
+    sess = started(lambda: Sess(rng, policy=build_policy(pol), users={user: "pw"}, setup=setup),
+                   lambda s: s.start(auth=False))
     labels = {}
     samples = []
+    if sess is None:
+        ctx.inconclusive("handshake failed three times")
+        return
     try:
-        if not sess.start(auth=False):
-            ctx.inconclusive("handshake failed: %r" % getattr(sess.att, "att_exc", None))
-            return
         v = sess.victim
         _OLD_SIDS.append(bytes(v.session_id))
         del _OLD_SIDS[:-8]
